@@ -7,7 +7,8 @@ package fstxn
 // opInv: the transaction's inode table holds exactly the inodes whose locks this goroutine holds.
 //@ predicate opShape(op *FsTxn) = op != nil && fsInv(op.Fs) && atxnInv(op.Atxn) && op.inodes != nil && op.Atxn.Super == op.Fs.Super
 //@ predicate opTable(op *FsTxn) = forall i uint64 :: held[i] ==> indom(op.inodes, i) && op.inodes[i] != nil && op.inodes[i].Inum == i
-//@ specfunc opInv(op *FsTxn) = opShape(op) && opTable(op)
+//@ predicate opDom(op *FsTxn) = forall i uint64 :: indom(op.inodes, i) ==> held[i]
+//@ specfunc opInv(op *FsTxn) = opShape(op) && opTable(op) && opDom(op)
 // I-alloc (global invariant, assumed where an inode is found live): a live inode's number is marked allocated
 //@ specfunc heldMarked() = forall i uint64 :: held[i] ==> abits[theIalloc][i]
 // opOpen: op is this goroutine's open transaction
@@ -58,12 +59,13 @@ package fstxn
 //@   ensures [F5-empty] len(result.Atxn.allocInums) == 0 && len(result.Atxn.freeInums) == 0 && len(result.Atxn.allocBnums) == 0 && len(result.Atxn.freeBnums) == 0 @C05 @C09
 
 //@ spec (*FsTxn).releaseInodes(op)
-//@   assume
+//@   props C03 C09 C10 C14 C06
 //@   requires opInv(op)
 //@   requires [L2-clean] forall i uint64 :: held[i] ==> !dirtyinum[i] @C03 @C09 @C10
 //@   requires [L2-held-through-commit] cphase != 1 || (forall i uint64 :: !wroteinum[i]) @C03 @C14
 //@   modifies held, map[uint64]*inode.Inode
 //@   ensures noLocks() && opShape(op)
+//@   loop 0 invariant opInv(op) && (forall i uint64 :: held[i] ==> !dirtyinum[i]) && (forall i uint64 :: held[i] ==> rangestart[i] && !rangevisited[i]) && (forall i uint64 :: held[i] ==> old(held)[i])
 
 //@ spec (*FsTxn).invalidateInodes(op)
 //@   assume
